@@ -1024,6 +1024,14 @@ theorem resolveRhs_frame {c : Cfg} {w w' : World} (r : Rhs) (n : Bool)
       simp only [if_true]
       rw [mapM_congr_mem items (fun a ha => resolveAtom_frame a (fun d hd => h d (by
         simp only [depsOf, if_true, List.mem_flatMap]; exact ⟨a, ha, hd⟩)))]
+  | cont2 rows =>
+    simp only [resolveRhs]
+    cases n with
+    | false => rfl
+    | true =>
+      simp only [if_true]
+      rw [mapM_congr_mem rows (fun row hrow => mapM_congr_mem row (fun a ha => resolveAtom_frame a (fun d hd => h d (by
+        simp only [depsOf, if_true, List.mem_flatMap]; exact ⟨row, hrow, a, ha, hd⟩))))]
 
 theorem skipsAtom_frame {c : Cfg} {w w' : World} (a : Atom) (h : ∀ d ∈ a.deps, readSrc w' d = readSrc w d) :
     a.skips c w' = a.skips c w := by
@@ -1055,6 +1063,19 @@ theorem skipsRhs_frame {c : Cfg} {w w' : World} (r : Rhs) (n : Bool)
       constructor
       · rintro ⟨a, ha, h⟩; exact ⟨a, ha, by rw [← this a ha]; exact h⟩
       · rintro ⟨a, ha, h⟩; exact ⟨a, ha, by rw [this a ha]; exact h⟩
+  | cont2 rows =>
+    simp only [skipsRhs]
+    cases n with
+    | false => rfl
+    | true =>
+      simp only [Bool.true_and]
+      have : ∀ row ∈ rows, ∀ a ∈ row, Atom.skips c w' a = Atom.skips c w a := fun row hrow a ha =>
+        skipsAtom_frame a (fun d hd => h d (by simp only [depsOf, if_true, List.mem_flatMap]; exact ⟨row, hrow, a, ha, hd⟩))
+      apply Bool.eq_iff_iff.2
+      simp only [List.any_eq_true]
+      constructor
+      · rintro ⟨row, hrow, a, ha, h⟩; exact ⟨row, hrow, a, ha, by rw [← this row hrow a ha]; exact h⟩
+      · rintro ⟨row, hrow, a, ha, h⟩; exact ⟨row, hrow, a, ha, by rw [this row hrow a ha]; exact h⟩
 
 theorem readSrc_set {w : World} {s i : Nat} {row : List Int} {v : Int} (hrow : w.src[s]? = some row) (d : SrcP)
     (hne : d ≠ (s, i)) : readSrc { w with src := w.src.set s (row.set i v) } d = readSrc w d := by
@@ -1810,7 +1831,8 @@ theorem applyRelink_finish {c : Cfg} {ds : List PDecl} {w : World} {tg : Target}
 /-- common facts about assigning to parameter k of the finished object -/
 theorem late_pre {c : Cfg} {ds : List PDecl} {w : World} {tg : Target} {k : Nat} {rhs : Rhs} {d : PDecl} {v : Val} {rl : Relink}
     (hds : c.decls[w.tgts.length]? = some ds) (hd : ds[k]? = some d) (hk : k < tg.vals.length) (hkd : k < tg.dflt.length)
-    (hnew : ∀ r, (k, r) ∉ tg.refs) (hres : resolveForSet c d false rhs w = some (some v, rl)) :
+    (hnew : ∀ r, (k, r) ∉ tg.refs) (hres : resolveForSet c d false rhs w = some (some v, rl))
+    (hks : keySupported c w.tgts.length (k, rhs) = true) :
     c.decl w.tgts.length k = some d ∧ Op.supported c (.set w.tgts.length k rhs) = true ∧
     (finish c ds w tg).tgts[w.tgts.length]? = some tg ∧ ¬ k ≥ nparams c w.tgts.length ∧
     (∃ old, tg.read k = some old) ∧
@@ -1822,16 +1844,7 @@ theorem late_pre {c : Cfg} {ds : List PDecl} {w : World} {tg : Target} {k : Nat}
     · exfalso; have : ds[k]? = none := by simp; omega
       rw [this] at hd; cases hd
   refine ⟨hdecl, ?_, by simp [finish], by simp [nparams, hds]; exact hkds, ?_, ?_⟩
-  · simp only [Op.supported, keySupported, hdecl]
-    unfold resolveForSet at hres
-    split at hres
-    · simp at hres
-    · rename_i hs
-      split at hres
-      · split at hres
-        · rename_i hl; simp_all
-        · simp at hres
-      · rename_i ha; simp_all
+  · simpa [Op.supported] using hks
   · unfold Target.read
     cases hv : tg.vals[k]? with
     | none => exfalso; simp at hv; omega
@@ -1850,11 +1863,12 @@ theorem late_step {c : Cfg} {ds : List PDecl} {w : World} {tg : Target} {k : Nat
     (hd : ds[k]? = some d) (hk : k < tg.vals.length) (hkd : k < tg.dflt.length)
     (hnew : ∀ r, (k, r) ∉ tg.refs)
     (hres : resolveForSet c d false rhs w = some (some v, rl)) (hns : skipsForSet c d rhs w = false)
+    (hks : keySupported c w.tgts.length (k, rhs) = true)
     (hvalid : d.valid v = true) (hro : d.readonly = false) (hconst : d.constant = false) :
     (step c (.set w.tgts.length k rhs) (finish c ds w tg)).1 = .ok ∧
     (step c (.set w.tgts.length k rhs) (finish c ds w tg)).2.1 =
       finish c ds w { tg with vals := tg.vals.set k (some v), refs := nextRefs tg k rl } := by
-  obtain ⟨hdecl, hsup, htg, hnp, ⟨old, hold⟩, hres'⟩ := late_pre (tg := tg) hds hd hk hkd hnew hres
+  obtain ⟨hdecl, hsup, htg, hnp, ⟨old, hold⟩, hres'⟩ := late_pre (tg := tg) hds hd hk hkd hnew hres hks
   have hns' : skipsForSet c d rhs (finish c ds w tg) = false := by
     rw [skipsForSet_congr (w := w) (by simp [finish])]; exact hns
   have hset : setInst c w.tgts.length k rhs (finish c ds w tg) =
@@ -1886,10 +1900,11 @@ theorem late_step_skip {c : Cfg} {ds : List PDecl} {w : World} {tg : Target} {k 
     (hfresh : ∀ (s : Nat) (ws : List (Nat × List Nat)) (names : List Nat), w.watch[s]? = some ws → (w.tgts.length, names) ∉ ws)
     (hd : ds[k]? = some d) (hk : k < tg.vals.length) (hkd : k < tg.dflt.length)
     (hnew : ∀ r, (k, r) ∉ tg.refs)
-    (hres : resolveForSet c d false rhs w = some (some v, rl)) (hsk : skipsForSet c d rhs w = true) :
+    (hres : resolveForSet c d false rhs w = some (some v, rl)) (hsk : skipsForSet c d rhs w = true)
+    (hks : keySupported c w.tgts.length (k, rhs) = true) :
     (step c (.set w.tgts.length k rhs) (finish c ds w tg)).1 = .ok ∧
     (step c (.set w.tgts.length k rhs) (finish c ds w tg)).2.1 = finish c ds w { tg with refs := nextRefs tg k rl } := by
-  obtain ⟨hdecl, hsup, htg, hnp, ⟨old, hold⟩, hres'⟩ := late_pre (tg := tg) hds hd hk hkd hnew hres
+  obtain ⟨hdecl, hsup, htg, hnp, ⟨old, hold⟩, hres'⟩ := late_pre (tg := tg) hds hd hk hkd hnew hres hks
   have hsk' : skipsForSet c d rhs (finish c ds w tg) = true := by
     rw [skipsForSet_congr (w := w) (by simp [finish])]; exact hsk
   have hset : setInst c w.tgts.length k rhs (finish c ds w tg) =
@@ -1909,14 +1924,15 @@ theorem late_loop {c : Cfg} {ds : List PDecl} {w : World}
     ∀ (kws : List (Nat × Rhs)) (tg tgN : Target), (kws.map (·.1)).Nodup →
     (∀ k r, (k, r) ∈ tg.refs → k ∉ kws.map (·.1)) →
     (∀ kv ∈ kws, ∀ d, ds[kv.1]? = some d → d.constant = false ∧ d.readonly = false) →
+    (∀ kv ∈ kws, keySupported c w.tgts.length kv = true) →
     ds.length ≤ tg.vals.length → ds.length ≤ tg.dflt.length →
     ctorKeys c ds w kws tg = (.ok, tgN) →
     runOps c (kws.map fun kv => .set w.tgts.length kv.1 kv.2) (finish c ds w tg) = finish c ds w tgN := by
   intro kws
   induction kws with
-  | nil => intro tg tgN _ _ _ _ _ h; simp [ctorKeys] at h; subst h; rfl
+  | nil => intro tg tgN _ _ _ _ _ _ h; simp [ctorKeys] at h; subst h; rfl
   | cons kv rest ih =>
-    intro tg tgN hnd hfr hfree hlv hld h
+    intro tg tgN hnd hfr hfree hsupp hlv hld h
     obtain ⟨k, rhs⟩ := kv
     simp only [List.map_cons, List.nodup_cons] at hnd
     simp only [ctorKeys] at h
@@ -1931,6 +1947,9 @@ theorem late_loop {c : Cfg} {ds : List PDecl} {w : World}
       have hnew : ∀ r, (k, r) ∉ tg.refs := fun r hm => hfr k r hm (by simp)
       have hfree' : ∀ kv ∈ rest, ∀ d, ds[kv.1]? = some d → d.constant = false ∧ d.readonly = false :=
         fun kv hkv => hfree kv (List.mem_cons_of_mem _ hkv)
+      have hsupp' : ∀ kv ∈ rest, keySupported c w.tgts.length kv = true :=
+        fun kv hkv => hsupp kv (List.mem_cons_of_mem _ hkv)
+      have hks := hsupp (k, rhs) (List.mem_cons_self ..)
       have hfr1 : ∀ (rl : Relink) k' r', (k', r') ∈ nextRefs tg k rl → k' ∉ rest.map (·.1) := by
         intro rl k' r' hm
         rcases relink_keys hm with hp | e
@@ -1943,9 +1962,9 @@ theorem late_loop {c : Cfg} {ds : List PDecl} {w : World}
         simp only [List.map_cons, runOps]
         split at h
         · rename_i hsk
-          have hstep := late_step_skip (tg := tg) hds hfresh hd (by omega) (by omega) hnew hres hsk
+          have hstep := late_step_skip (tg := tg) hds hfresh hd (by omega) (by omega) hnew hres hsk hks
           rw [hstep.2]
-          exact ih { vals := tg.vals, dflt := tg.dflt, refs := nextRefs tg k rl } tgN hnd.2 (hfr1 rl) hfree' hlv hld h
+          exact ih { vals := tg.vals, dflt := tg.dflt, refs := nextRefs tg k rl } tgN hnd.2 (hfr1 rl) hfree' hsupp' hlv hld h
         · rename_i hns
           split at h
           · simp at h
@@ -1953,10 +1972,10 @@ theorem late_loop {c : Cfg} {ds : List PDecl} {w : World}
             · simp at h
             · rename_i hvalid hro
               obtain ⟨hc, _⟩ := hfree (k, rhs) (List.mem_cons_self ..) d hd
-              have hstep := late_step (tg := tg) hds hfresh hd (by omega) (by omega) hnew hres (by simpa using hns)
+              have hstep := late_step (tg := tg) hds hfresh hd (by omega) (by omega) hnew hres (by simpa using hns) hks
                 (by simpa using hvalid) (by simpa using hro) hc
               rw [hstep.2]
-              exact ih { vals := tg.vals.set k (some v), dflt := tg.dflt, refs := nextRefs tg k rl } tgN hnd.2 (hfr1 rl) hfree'
+              exact ih { vals := tg.vals.set k (some v), dflt := tg.dflt, refs := nextRefs tg k rl } tgN hnd.2 (hfr1 rl) hfree' hsupp'
                 (by simpa using hlv) hld h
 
 theorem ctor_late_equiv {c : Cfg} {dflt : List Val} {kws : List (Nat × Rhs)} {w w1 : World}
@@ -1975,7 +1994,10 @@ theorem ctor_late_equiv {c : Cfg} {dflt : List Val} {kws : List (Nat × Rhs)} {w
     have hl := hlen ds hds
     split at hc
     · simp at hc
-    · split at hc
+    · rename_i hall
+      have hall' : ∀ kv ∈ kws, keySupported c w.tgts.length kv = true := by
+        simpa [List.all_eq_true] using hall
+      split at hc
       · rename_i tgN hck
         simp at hc; subst hc
         rw [dedupKeys_of_nodup kws hkeys] at hck
@@ -1984,6 +2006,7 @@ theorem ctor_late_equiv {c : Cfg} {dflt : List Val} {kws : List (Nat × Rhs)} {w
           { vals := (ds.zip dflt).map fun (d, v) => if d.constant || d.readonly then some v else none, dflt := dflt, refs := [] }
           tgN hkeys (by intro k r hm; cases hm)
           (fun kv hkv d hd => hfree kv hkv d (by rw [decl_of_decls hds]; exact hd))
+          (fun kv hkv => hall' kv hkv)
           (by simp; omega) hl hck
         simpa [finish, allDeps] using this
       · rename_i hne _
